@@ -346,26 +346,26 @@ NOT_YET = "check not built yet in this round (work in progress; see DESIGN.md se
 
 # sentences appended to the level text of checks that were extended after the seeded-change waves
 EXTRA_TEXT = {
-    "C13": " Round 3: 15 paths from default-bound data to a registry object x modify/remove; two objects restored from one pickle (registries 2 and 3). Round 4: products across registries in every spelling, read back by name. Round 5: quotient carry-on and dimensionless left operands across registries; constructors given a Unit of another registry plus registry=. Round 6: quantities handed to modify / define_unit stay bit-for-bit what they were.",
-    "C10": " Round 3: a rejected UnitSystem leaves no trace (name absent, unusable, holder of the same name untouched). Round 4: a user system with an offset base unit; inconsistent systems without a current unit and with a wrong logarithmic unit. Round 5: a system re-created under its name with other base units.",
-    "C01": " Added: every np.clip bound position/spelling, out= forms of the merging functions, and 'namesake' operands - units spelled alike but of different dimension (a unit object kept across remove+add of its symbol; one symbol defined differently in two registries), cold and after a warm-up call, through every operation x form. Round 3: empty operands of another dimension, lists mixing quantities with a non-zero bare number, reduce(initial=) forms made effective. Round 4: boundary / fill values (ediff1d, diff, interp) in keyword and positional spelling. Round 5: electromagnetic triples in the quick tier.",
-    "C02": " Added: numeric coefficients under roots and powers; user units defined by define_unit/add/modify(quantity) in registries with cgs, imperial, galactic and mks default systems (atom, prefixed, compound, conversion).",
-    "C03": " Added: every spelling of one target (name, alias, parenthesised, trivial power, empty string, Unit object) x 5 routes; argument-free base-conversion routes of registries with a non-default unit system vs the routes that name the system. Round 3: source and target spelled alike but defined differently (Unit object of another registry / built before an edit) through every route; routes that name their system (in_mks, convert_to_cgs, get_mks_equivalent) under registries with another default system. Round 4: the label of a namesake conversion's result.",
-    "C04": " Added: .dot method and udot helper, trigonometry on the offset angle scales lat/lon, all ordered pairs of 15 compound / inverse / self-cancelling leaf units, and operands whose units are spelled alike but differ in size (stale unit object after modify; two registries). Round 3: reductions over every axis spelling incl. tuples with negative members; array-valued exponents (uniform, rows-equal, one-off; scalar and broadcast bases); operands of different item sizes in different units judged at each operand's own float width. Round 4: reductions with a quantity start value in another unit (quantity and 0-d array) for the whole ufunc family and the function / method spellings. Round 5: leaf pairs that are both tiny or both huge in SI. Round 6: one physical temperature compared across scales (==, !=, <=, >=); integer operands whose units cancel into a large pure number.",
-    "C05": " Added: == / != decided for all ordered atom pairs, equal units with equal expression hash equally whatever algebraic route built them, as_coeff_unit keeps the zero point. Round 3: the same symbols in registries that define them differently and before/after modify - all ordered pairs under *, /, inverse, powers, and each quotient as an operand again. Round 5: hash of a unit simplified in place after it was hashed.",
-    "C06": " Added: large tied arrays for stable sorts, out= templates with axis-symmetric result shapes, ufunc templates on operands that carry one unit through two Unit objects (integer data, zero divisors), unyt's u* helpers. Round 3: 0-d out= buffers, searchsorted across dtypes, same-object equality with NaN, flat range= of the histogram family. Round 5: non-degenerate boolean masks; an angle unit set. Round 6: dot / matmul / inner / tensordot with 3-d operands; non-commuting out= products.",
-    "C07": " Added: out= buffers handed over in another unit of the same dimension must come back denoting the same quantities. Round 3: each input of a dimension re-expressed on its own (split oracle), bit-for-bit for dyadic units.",
-    "C08": " Added: products through 14 array functions and through Unit objects with the offset-scale operand on either side. Round 3: lists and tuples of readings on mixed scales coerced by the constructor. Round 5: item-assignment routes between temperature scales. Round 6: the Unit object of an offset scale divided by plain data.",
+    "C13": " Round 3: 15 paths from default-bound data to a registry object x modify/remove; two objects restored from one pickle (registries 2 and 3). Round 4: products across registries in every spelling, read back by name. Round 5: quotient carry-on and dimensionless left operands across registries; constructors given a Unit of another registry plus registry=. Round 6: quantities handed to modify / define_unit stay bit-for-bit what they were. Round 7: constructors on the bypass_validation path; the unit argument and exported units stay bound to their registry.",
+    "C10": " Round 3: a rejected UnitSystem leaves no trace (name absent, unusable, holder of the same name untouched). Round 4: a user system with an offset base unit; inconsistent systems without a current unit and with a wrong logarithmic unit. Round 5: a system re-created under its name with other base units. Round 7: units declared on a system after its first use, electromagnetic dimensions included.",
+    "C01": " Added: every np.clip bound position/spelling, out= forms of the merging functions, and 'namesake' operands - units spelled alike but of different dimension (a unit object kept across remove+add of its symbol; one symbol defined differently in two registries), cold and after a warm-up call, through every operation x form. Round 3: empty operands of another dimension, lists mixing quantities with a non-zero bare number, reduce(initial=) forms made effective. Round 4: boundary / fill values (ediff1d, diff, interp) in keyword and positional spelling. Round 5: electromagnetic triples in the quick tier. Round 7: zero-valued quantities and lists of quantities as operands and as values put into arrays; np.pad fill values.",
+    "C02": " Added: numeric coefficients under roots and powers; user units defined by define_unit/add/modify(quantity) in registries with cgs, imperial, galactic and mks default systems (atom, prefixed, compound, conversion). Round 7: user units defined by electromagnetic (SI and Gaussian) quantities; Earth mass from an independent source.",
+    "C03": " Added: every spelling of one target (name, alias, parenthesised, trivial power, empty string, Unit object) x 5 routes; argument-free base-conversion routes of registries with a non-default unit system vs the routes that name the system. Round 3: source and target spelled alike but defined differently (Unit object of another registry / built before an edit) through every route; routes that name their system (in_mks, convert_to_cgs, get_mks_equivalent) under registries with another default system. Round 4: the label of a namesake conversion's result. Round 7: the source's own unit rebuilt by unit algebra (u**1, copies, Unit(u)) as target; x**1, +x, x*1 as sources.",
+    "C04": " Added: .dot method and udot helper, trigonometry on the offset angle scales lat/lon, all ordered pairs of 15 compound / inverse / self-cancelling leaf units, and operands whose units are spelled alike but differ in size (stale unit object after modify; two registries). Round 3: reductions over every axis spelling incl. tuples with negative members; array-valued exponents (uniform, rows-equal, one-off; scalar and broadcast bases); operands of different item sizes in different units judged at each operand's own float width. Round 4: reductions with a quantity start value in another unit (quantity and 0-d array) for the whole ufunc family and the function / method spellings. Round 5: leaf pairs that are both tiny or both huge in SI. Round 6: one physical temperature compared across scales (==, !=, <=, >=); integer operands whose units cancel into a large pure number. Round 7: reductions without an axis, with where= masks, reduceat / accumulate; exponents that are quantities in scaled dimensionless units.",
+    "C05": " Added: == / != decided for all ordered atom pairs, equal units with equal expression hash equally whatever algebraic route built them, as_coeff_unit keeps the zero point. Round 3: the same symbols in registries that define them differently and before/after modify - all ordered pairs under *, /, inverse, powers, and each quotient as an operand again. Round 5: hash of a unit simplified in place after it was hashed. Round 7: units with numeric coefficients under powers and roots.",
+    "C06": " Added: large tied arrays for stable sorts, out= templates with axis-symmetric result shapes, ufunc templates on operands that carry one unit through two Unit objects (integer data, zero divisors), unyt's u* helpers. Round 3: 0-d out= buffers, searchsorted across dtypes, same-object equality with NaN, flat range= of the histogram family. Round 5: non-degenerate boolean masks; an angle unit set. Round 6: dot / matmul / inner / tensordot with 3-d operands; non-commuting out= products. Round 7: histogramdd on one (N, D) array, einsum keyword arguments, integer diff boundary values.",
+    "C07": " Added: out= buffers handed over in another unit of the same dimension must come back denoting the same quantities. Round 3: each input of a dimension re-expressed on its own (split oracle), bit-for-bit for dyadic units. Round 7: rint judged (known finding); histogram_bin_edges with quantity limits.",
+    "C08": " Added: products through 14 array functions and through Unit objects with the offset-scale operand on either side. Round 3: lists and tuples of readings on mixed scales coerced by the constructor. Round 5: item-assignment routes between temperature scales. Round 6: the Unit object of an offset scale divided by plain data. Round 7: sum / add.reduce with a start value, operators applied to slices of a larger array.",
     "C09": " Added: operands and target names living in a custom registry (re-defined Msun, code units). Round 3: '' and '1' spellings of the dimensionless target, Unit-object targets, integer data. Round 4: offset-scale temperature targets through every entry point.",
-    "C11": " Added: sibling-edit hops and savetxt/loadtxt of several columns read back in every order and selection. Round 3: registries serialised once before their last edit; files with one value, one row, one column. Round 4: follow-ups on units parsed after the hop from the restored table. Round 5: quotients by differently spelled commensurable quantities; scaled dimensionless units through text files. Round 6: comment markers other than '#' in text files.",
+    "C11": " Added: sibling-edit hops and savetxt/loadtxt of several columns read back in every order and selection. Round 3: registries serialised once before their last edit; files with one value, one row, one column. Round 4: follow-ups on units parsed after the hop from the restored table. Round 5: quotients by differently spelled commensurable quantities; scaled dimensionless units through text files. Round 6: comment markers other than '#' in text files. Round 7: registries with removed built-in symbols.",
     "C12": " Added: a second search from a populated registry, doubly prefixed probes, cancellation programs compared also through the printed unit, modify(sym, quantity in sym), kept Unit.copy() objects probed through their own registry, freshness of the memoised registry id after every edit. Round 3: NumPy-function programs (prod, var, std, det, inv, dot, trapezoid, cross) judged in every state against the model's definitions; UnitSystem objects bound to the edited registry. Round 4: 10 built-in symbols x every spelling x 5 edits x cold/warm against the raw tables; staleness keyed by cause. Round 5: define_unit / membership of already resolvable spellings, cold vs warm. Round 6: arrays kept across an edit and their later copies (keeparr / copykept events).",
     "C14": " Added: resolution independent of the order of earlier prefixed lookups in a fresh registry (all ordered prefix pairs x all prefixable symbols, comoving ...cm symbols) and table symbols surviving the registration of a user symbol S with prefix+S = table symbol. Round 3: namespace of a registry with redefined built-ins; prefix on an already prefixed unit, cold and warm; violation keys carry the spelling family. Round 4: promised spellings read off the raw tables; every alias row of the raw table. Round 5: independent alias reference (184 lines) compared both ways; UTF-8 bytes spellings. Round 6: units exported by define_unit - attribute and string denote one unit.",
-    "C15": " Added: namespaces filled by add_symbols then add_constants, and by add_constants twice. Round 3: one unit-system name over registries with different code units, and after modify.",
-    "C16": " Added: in-place operators and out= on whole / first-element / first-two views stay attached to the parent; list coercion across two registries; constructor keyword variants. Round 3: ufunc operand units that combine to a number times a unit; gufunc contractions (matmul, vecdot, matvec, vecmat). Round 4: converting calls on a unit that is already the system's own; ua / unit_array / **0 / bypass_validation constructors. Round 5: constructor inputs with unusual memory layout; unorm / norms / all-axes reductions.",
-    "C17": " Added: an out= buffer that is the second operand; spectral wavelength->wavenumber (a reciprocal) for every integer dtype; floor_divide and remainder of 8-byte operands in different units against the exact rational floor. Round 3: SI<->Gaussian pairs; lists/tuples of integer quantities in mixed units (constructor and operand). Round 5: electromagnetic units in the argument-free base routes; lorentz and sound_speed on integer velocities. Round 6: Planck units in the width / warning / route-agreement oracle.",
-    "C18": " Added: operands with unsimplified unit expressions; Unit-object targets of another registry / exported units snapshotted with the identity of their registry. Round 3: separate integer out= buffers of binary ufuncs; data (op) Unit results never alias the data; argument-free in-place/copy twins under registries with another default system. Round 4: fractional-power operands, NumPy-level refusals with misfit out= buffers, Unit operands with cancelling factors. Round 5: the returned object of in-place / out= calls; targets on offset and logarithmic scales. Round 6: non-commuting operands in out= products.",
-    "C19": " Added: every decorator usage repeated as a later call of the same decorated function. Round 3: differences between rtol*|actual| and rtol*|desired|; atol held in a unyt_array that is not a unyt_quantity. Round 4: stacked decorators. Round 5: one stated return dimension with a tuple result.",
-    "C20": " Added: printed forms of products with self-cancelling unit ratios. Round 3: unit text persisted by pickle (protocols 2-5) and savetxt under registries with redefined built-ins. Round 5: two-column text files under every delimiter.",
+    "C15": " Added: namespaces filled by add_symbols then add_constants, and by add_constants twice. Round 3: one unit-system name over registries with different code units, and after modify. Round 7: a 1e-8 tolerance class for spectroscopic constants (R_inf).",
+    "C16": " Added: in-place operators and out= on whole / first-element / first-two views stay attached to the parent; list coercion across two registries; constructor keyword variants. Round 3: ufunc operand units that combine to a number times a unit; gufunc contractions (matmul, vecdot, matvec, vecmat). Round 4: converting calls on a unit that is already the system's own; ua / unit_array / **0 / bypass_validation constructors. Round 5: constructor inputs with unusual memory layout; unorm / norms / all-axes reductions. Round 7: in-place operators on views of INTEGER data judged through the parent; 0-d out= through clip / around / choose; one-element quantity parents; attempted multi-element quantities.",
+    "C17": " Added: an out= buffer that is the second operand; spectral wavelength->wavenumber (a reciprocal) for every integer dtype; floor_divide and remainder of 8-byte operands in different units against the exact rational floor. Round 3: SI<->Gaussian pairs; lists/tuples of integer quantities in mixed units (constructor and operand). Round 5: electromagnetic units in the argument-free base routes; lorentz and sound_speed on integer velocities. Round 6: Planck units in the width / warning / route-agreement oracle. Round 7: fourth powers / squares of integer data inside equivalences (effective_temperature, lorentz gamma).",
+    "C18": " Added: operands with unsimplified unit expressions; Unit-object targets of another registry / exported units snapshotted with the identity of their registry. Round 3: separate integer out= buffers of binary ufuncs; data (op) Unit results never alias the data; argument-free in-place/copy twins under registries with another default system. Round 4: fractional-power operands, NumPy-level refusals with misfit out= buffers, Unit operands with cancelling factors. Round 5: the returned object of in-place / out= calls; targets on offset and logarithmic scales. Round 6: non-commuting operands in out= products. Round 7: read-only and bool operands of in-place conversions; simplify among the non-mutating Unit calls incl. the registry's unit for the string; bare out= buffers.",
+    "C19": " Added: every decorator usage repeated as a later call of the same decorated function. Round 3: differences between rtol*|actual| and rtol*|desired|; atol held in a unyt_array that is not a unyt_quantity. Round 4: stacked decorators. Round 5: one stated return dimension with a tuple result. Round 7: tolerances as quantities on all helpers incl. np.allclose / np.isclose, temperature scales, dimensionless operands; decorator signatures with *args / keyword-only / locals.",
+    "C20": " Added: printed forms of products with self-cancelling unit ratios. Round 3: unit text persisted by pickle (protocols 2-5) and savetxt under registries with redefined built-ins. Round 5: two-column text files under every delimiter. Round 7: negative bases under fractional powers; empty symbol names.",
 }
 
 
